@@ -22,5 +22,27 @@ KF_C19_BlankWrappers(t, c) ==
                      /\ IsBlankLine(LineText(t, d.br, e.lo + 1))
                      /\ IsBlankLine(LineText(t, d.br, e.lc - 1))
 
+(***************************************************************************)
+(* C19-blank-wrapper-lead: an unwrap-block whose opening wrapper line is    *)
+(* blank and is followed by a line that begins (after its indentation) with *)
+(* an element lying wholly on that line, with text of the line behind it    *)
+(* ("<x>old</x> code;").  When an earlier run removes that element,         *)
+(* PrevLineBreakRemover deletes the blank line in front of the position     *)
+(* although code follows on the line (the repository's own test of the      *)
+(* formatter pins this: a removal directly in front of "</div>" takes the   *)
+(* blank line before it away), so the line of code becomes the wrapper line *)
+(* - or too few lines are left to unwrap the block at all.                  *)
+(***************************************************************************)
+KF_C19_BlankWrapperLead(t, c) ==
+  LET d == Doc(t, c) IN
+  \E e \in d.elems :
+     /\ e.uw /\ e.m >= 2
+     /\ IsBlankLine(LineText(t, d.br, e.lo + 1))
+     /\ \E x \in d.elems :
+           LET k == e.lo + 2 IN
+           /\ LineOf(d.br, x.os) = k /\ LineOf(d.br, x.ce - 1) = k
+           /\ AllBlank(Slice(t, LineS(d.br, k), x.os))
+           /\ ~AllBlank(Slice(t, x.ce, LineE(t, d.br, k)))
+
 Listed(prop, id, sig, who) == sig /\ PrintT(<<"KNOWN-FINDING", prop, id, who>>)
 =============================================================================
